@@ -180,7 +180,7 @@ def formula_checks(run, tier, rng):
         for _ in range(K):
             Lm = np.tril(nr.randn(d, d)) * 0.01 + 0.03 * np.eye(d)
             covs.append(Lm @ Lm.T)
-        dof = [rng.choice([2.0, 5.0, 30.0]) for _ in range(K)]
+        dof = [rng.choice([0.7, 1.5, 2.0, 5.0, 30.0]) for _ in range(K)]
         nw = 3
         u = np.clip(0.5 + 0.03 * nr.randn(nw, d), 0.2, 0.8)
         asg = [rng.randrange(K) for _ in range(nw)]
@@ -188,6 +188,13 @@ def formula_checks(run, tier, rng):
         logl, _ = like(u)
         beta = rng.choice([0.3, 1.0])
         r = make_runner("tpcn", u, logl, means, covs, dof, asg, beta, like)
+        if t % 2 == 1:
+            # formulas are checked on the state reached after real iterations of run() (walkers have moved): anything the
+            # runner carries over from one iteration to the next must refer to the walkers' current positions
+            np.random.seed(rng.randrange(2 ** 31))
+            r.run()
+            u, logl = r.u.copy(), r.logl.copy()
+            run.count("formula case checked after real iterations of run()")
         r.sigmas[:] = rng.choice([0.3, 0.6, 0.9])
         k = rng.randrange(nw)
         rec = {}
